@@ -348,11 +348,11 @@ class TridonicGW(HidDevice):
             self.report(self.MODE_RESPONSE, rtype, value, seq, end)
         outcome = self.bus.transmit(bits, value, twice, end, unit, "own")
         rec["outcome"] = outcome
-        self.last_own = (bits, value, seq)
         kind = outcome[0]
         if kind == "silent":
             self.line.free_at = max(self.line.free_at, end + T_NO_ANSWER)
             self.report(self.MODE_RESPONSE, self.R_NO, 0, seq, end + T_NO_ANSWER)
+            self.last_own = (bits, value, seq, end + T_NO_ANSWER)
         else:
             settle = r.randrange(SETTLE_FF_BF_MIN, SETTLE_FF_BF_MAX)
             bf_end = end + settle + T_BF
@@ -361,12 +361,18 @@ class TridonicGW(HidDevice):
                 self.report(self.MODE_RESPONSE, self.R_BF, outcome[1], seq, bf_end)
             else:
                 self.report(self.MODE_RESPONSE, self.R_INFO, 3, seq, bf_end)
+            self.last_own = (bits, value, seq, bf_end)
 
     # ---- traffic from other masters, as the gateway reports it ----------
     def observe_forward(self, bits, value, at_us):
         """Another master's forward frame ended at at_us."""
         rtype = self.R_FF16 if bits == 16 else self.R_FF24
-        if self.quirk and self.last_own and self.last_own[:2] == (bits, value):
+        # documented firmware quirk: a foreign frame equal to the frame we
+        # transmitted last is reported as if it were ours (old seq) - only
+        # once that command has completed
+        if self.quirk and self.last_own and self.last_own[:2] == (bits, value) \
+                and at_us > self.last_own[3]:
+            self.quirk_fired = getattr(self, "quirk_fired", 0) + 1
             self.report(self.MODE_RESPONSE, rtype, value, self.last_own[2], at_us)
         else:
             self.report(self.MODE_OBSERVE, rtype, value, 0, at_us)
